@@ -14,6 +14,7 @@ mod common;
 mod des;
 mod fam_block;
 mod fam_hostile;
+mod fam_observe;
 mod fam_sink;
 mod fam_wire;
 mod gen;
@@ -145,8 +146,39 @@ fn props() -> Vec<PropCfg> {
             real: &["coap_lite::link_format::LinkFormatWrite / LinkAttributeWrite (link, attr, attr_quoted, attr_u32, attr_u16, finish)"],
             stub: &["fmt::Write sink with injected failures (fail once / fail from / torn)", "document generator"],
         },
+        PropCfg {
+            id: "C14",
+            family: "observe",
+            level: "exploration",
+            quick_runs: 100_000,
+            thorough_runs: 3_000_000,
+            rule: OBS_RULE,
+            assumptions: OBS_ASSUME,
+            real: OBS_REAL,
+            stub: OBS_STUB,
+        },
+        PropCfg {
+            id: "C15",
+            family: "observe",
+            level: "exploration",
+            quick_runs: 100_000,
+            thorough_runs: 3_000_000,
+            rule: OBS_RULE,
+            assumptions: OBS_ASSUME,
+            real: OBS_REAL,
+            stub: OBS_STUB,
+        },
     ]
 }
+
+const OBS_RULE: &str = "One simulated run = a server loop around the real Subject/create_notification with 2-5 observer clients (register, re-register with a new token, deregister with the current or a stale token, ACK with probability 0-100%, go silent, bogus ACKs with unknown / other endpoints' / stale message ids), 1-3 resource paths, limit drawn from {0,1,2,3,10,254,255}, 1-40 notification rounds (260-600 in long runs, which reach the 8-bit counter edge) with per-round CON/NON, over links with drop/dup/delay. One evaluation = one operation the server performed on the Subject, after which the full registry (with the hook also the private counters) is compared with the reference model (refinement). Distinct non-trivial = distinct abstract registry states reached (per path: observer count, multiset of min(unacked, limit+1, 6), number of pending acknowledgements; limit class); distinct_secondary = distinct operation bigrams.";
+const OBS_ASSUME: &[&str] = &[
+    "uses the cfg(coap_lite_verif) Observer accessors to compare private counters; without them only observer lists and eviction rounds are compared",
+    "resource absent and resource without observers are treated as equal, except for a path nobody ever registered for",
+    "sampled histories, not the exhaustive depth-5/6 enumeration of the property's quantifier",
+];
+const OBS_REAL: &[&str] = &["coap_lite::Subject::{register, deregister, resource_changed, acknowledge, get_resource, get_resource_observers, set_unacknowledged_limit}", "coap_lite::create_notification", "coap_lite::Packet::from_bytes / to_bytes_unlimited", "coap_lite::CoapRequest::{from_packet, get_path, get_observe_flag, set_observe_flag}"];
+const OBS_STUB: &[&str] = &["network (SimNet: drop, dup, delay)", "observer clients", "server notification loop (written from the doc comment on resource_changed)", "reference model of the registry"];
 
 const WIRE_RULE: &str = "One evaluation = one seeded simulated run of the `wire` family: block-wise traffic with option sets on the delta/length codec boundaries plus a byzantine sender crosses links that truncate, flip, set, insert, delete bytes and append garbage (1-2 steps per affected datagram); half of the clients sit behind a forwarding proxy that parses and re-serialises. The reference parser (three-valued verdict) is compared with Packet::from_bytes on every datagram any node parses (counters wire.ref.* give the number of datagrams). Distinct non-trivial = distinct datagram classes reached: hash of (reference verdict class, failing grammar production, nibble classes seen for delta and for length, option count capped at 6, TKL, marker presence, payload length capped at 3).";
 const WIRE_ASSUME: &[&str] = &[
@@ -162,6 +194,7 @@ fn run_family(family: &str, ch: &mut Ch, verbose: bool) -> Result<Outcome, Strin
         "wire" => Ok(fam_wire::run(ch, verbose)),
         "hostile" => Ok(fam_hostile::run(ch, verbose)),
         "sink" => Ok(fam_sink::run(ch, verbose)),
+        "observe" => Ok(fam_observe::run(ch, verbose)),
         _ => Err(format!("unknown family {}", family)),
     }
 }
